@@ -38,6 +38,10 @@
 ;; ghost cver Int
 ;; ghost vcver Int
 ;; ghost lastCtxErrNil Bool
+; C11: the received messages this node has counted (stored), by message object
+;; ghost countedP (Array Int Bool)
+;; ghost countedC (Array Int Bool)
+;; ghost countedVC (Array Int Bool)
 ; channels and timers (A-CHAN / A-STD ghost state)
 ;; ghost closed (Array Int Bool)
 ;; ghost nsent Int
